@@ -233,11 +233,29 @@ func runRepVal(hdr Header, c any, src string) CaseResult {
 	sawT, sawF := false, false
 	for j, e := range exp {
 		es := e.(string)
-		if es == "x" {
-			res.Skipped++
-			continue
-		}
 		want := es == "T"
+		if es == "x" {
+			// outside the domain on which L0 defines the keyword (multipleOf beyond the dyadic / 2^53 pool): C08
+			// itself names the oracle - the verdict of the canonical encoding/json decoding of the same document
+			var canon any
+			if err := json.Unmarshal([]byte(abs.DenJSON(vs[j])), &canon); err != nil {
+				res.Skipped++
+				continue
+			}
+			ok := true
+			func() {
+				defer func() {
+					if recover() != nil {
+						ok = false
+					}
+				}()
+				want = rs.Validate(canon) == nil
+			}()
+			if !ok {
+				res.Skipped++
+				continue
+			}
+		}
 		res.Evals++
 		verr := rs.Validate(built[j])
 		if want {
